@@ -3,7 +3,7 @@ and calls inside one interpreter state; afterwards the caller-visible state is c
 was (provider mappings, annotation attributes).
 
  A|alias|cls,opt,shape            one shared annotation object (opt = its constructor flag, normally 0)
- V|pid|fresh/long/bad|scope       a provider object (fresh dict per call / one long-lived dict / not a provider)
+ V|pid|fresh/long/bad/badfalsy/badstr/falsy|scope   a provider object (fresh dict per call / one long-lived dict / not a provider: an object, a falsy object, a string other than "self" / a falsy provider)
  S|pid|scope                      change what the provider returns
  D|fid|pid,-,self:pid,selfraw|name=alias:opt;name=(alias:opt+alias:opt)|ret|nested
  I|newfid|fid|pid                 the method `fid` (declared with self:...) through another instance whose mapping is provider pid's
@@ -45,6 +45,13 @@ class FalsyProv(Prov):
 class NotProv:
     def __init__(self, d):
         self.d = dict(d)
+
+    def set(self, d):
+        self.d = dict(d)
+
+
+class StrProv(str):
+    """a string other than "self" given as scope provider: not a provider (and not the name of anything)"""
 
     def set(self, d):
         self.d = dict(d)
@@ -107,6 +114,9 @@ def op_hist(*steps: str) -> str:
                     provs[f[1]] = NotProv(d)
                 elif f[2] == "badfalsy":
                     provs[f[1]] = type("FalsyNotProv", (NotProv,), {"__len__": lambda self: 0})(d)
+                elif f[2] == "badstr":
+                    provs[f[1]] = StrProv("config")
+                    provs[f[1]].d = dict(d)
                 elif f[2] == "falsy":
                     provs[f[1]] = FalsyProv("fresh", d)
                 else:
@@ -129,7 +139,7 @@ def op_hist(*steps: str) -> str:
                 body += "    if RAISE[0]:\n        raise BodyError()\n    return RET[0]\n"
                 if pid.startswith("self:"):
                     src = f"class K_{fid}:\n    def __init__(self, prov):\n        self.prov = prov\n"
-                    if not isinstance(provs.get(pid[5:]), NotProv):
+                    if not isinstance(provs.get(pid[5:]), (NotProv, StrProv)):
                         src += "    def get_dltype_scope(self):\n        return self.prov.get_dltype_scope()\n"
                     src += f"    @dltype.dltyped('self')\n    def f(self{', ' if sig else ''}{sig}){rets}:\n"
                     src += "".join("    " + l + "\n" for l in body.splitlines())
